@@ -95,7 +95,15 @@ func C02(tier string) int {
 	}
 	withRestart := func(ops []SOp) func(path []SOp) []SOp {
 		return func(path []SOp) []SOp {
-			if hasRestart(path) || len(path) == 0 {
+			if len(path) == 0 {
+				// A history may begin with a record left by an older release (old record format).
+				all := append([]SOp{}, ops...)
+				for _, slot := range []uint64{0, 1, 5} {
+					all = append(all, SOp{Kind: "legacy-prop", Ents: []Ent{{Key: 0, Slot: slot}}})
+				}
+				return all
+			}
+			if hasRestart(path) {
 				return ops
 			}
 			return append(append([]SOp{}, ops...), SOp{Kind: "restart"})
